@@ -85,5 +85,38 @@ def compare(gen: int, ref: dict, got: dict) -> list[dict]:
         if {int(k): v for k, v in ref["names"].items()} != {int(k): v for k, v in got["names"].items()}:
             diffs.append({"at": "names", "ref": ref["names"], "got": got["names"], "cls": "value"})
         return diffs
+    if rk in ("group_control", "zone_control", "ac_control"):
+        a, b = _control_key(gen, ref, True), _control_key(gen, got, False)
+        if UNDEF in repr(a):
+            return diffs  # a code the documents do not define: any reading (or rejection) is admissible
+        if a != b:
+            diffs.append({"at": rk, "ref": a, "got": b, "cls": "value"})
+        return diffs
     _cmp_record(rk, ref, got, diffs, set())
     return diffs
+
+
+def _control_key(gen: int, r: dict, is_ref: bool):
+    """Control frames: the value bytes only mean something for 'set' settings."""
+    k = r["kind"]
+    if k == "group_control":
+        return (r["group"], r["power"], r["method"], r["setting"], r["value"] if r["setting"] in ("percent", "setpoint") else None)
+    if k == "zone_control":
+        out = []
+        for c in r["zones"]:
+            v = None
+            if c["setting"] == "percent":
+                v = c["value"]
+            elif c["setting"] == "setpoint":
+                v = c["value"] if is_ref else round(c["value"] * 10) - 100
+            out.append((c["zone"], c["power"], c["setting"], v))
+        return tuple(out)
+    if gen == 4:
+        return (r["ac"], r["power"], r["mode"], r["fan"], r["sp_type"], r["sp_value"] if r["sp_type"] == "set" else None)
+    out = []
+    for c in r["acs"]:
+        v = None
+        if c["sp_ctrl"] == "set":
+            v = c["sp_raw"] if is_ref else round(c["setpoint"] * 10) - 100
+        out.append((c["ac"], c["power"], c["mode"], c["fan"], c["sp_ctrl"], v))
+    return tuple(out)
